@@ -107,7 +107,7 @@ CHECKS = {
         "level_text": ("For generated programs with wide map / struct literals (up to 9 keys), several split arguments and 0 or 2-4 injected independent type errors (including several bad entries "
                        "inside one unordered literal): formatted text, compile error text, include-expanded source and call-graph JSON are computed 12 times and must be byte-identical; Go "
                        "randomises map iteration per range statement, so an unsorted traversal over k >= 4 keys survives 11 repetitions with probability < 1e-10. Runtime part: the same program "
-                       "driven three times under a fixed FIFO schedule must give the same directory listing (fork ids) and the same per-fork _invocation files. Also: bursts of 2-5 declaration-level errors in one scope (17 families), the strictest enforcement level, calls in any order, and formatting with include fixing over declarations spread across files with some includes missing and some callables declared nowhere. Exploration."),
+                       "driven three times under a fixed FIFO schedule must give the same directory listing (fork ids), the same per-fork _invocation files and the same serialized pipestance (nodes, forks with their indices, chunks, bindings: what _finalstate and the API hold), as the run built it and as a fresh runtime re-attaching to the finished pipestance rebuilds it; for nodes that ran, the fork order of the two views must agree as well. Also: bursts of 2-5 declaration-level errors in one scope (17 families), the strictest enforcement level, calls in any order, and formatting with include fixing over declarations spread across files with some includes missing and some callables declared nowhere. Exploration."),
         "level_note": "Separate OS processes are not compared (pointer- or time-dependent output would differ between in-process repetitions as well, because every repetition allocates afresh).",
         "rule": ("rapid program generator (C09 configuration, collections up to 9 entries) x optional 2-4 ill-typed mutations; non-trivial: >= 8 key/value pairs in the text or >= 2 injected errors. "
                  "Run part: C01 generator, non-trivial: >= 3 fork directories. Distinct by hash of the source."),
